@@ -117,6 +117,14 @@ func (s *store) SetChannelPts(ctx context.Context, userID, channelID int64, pts 
 		// position (pts - pts_count of the first update), whether or not the
 		// write succeeds
 		s.w.baseline(name, pts)
+		// The library starts tracking a channel because it received an update
+		// of it, and must track from the start of that update: a first-sight
+		// position at which no received update of the channel starts would
+		// cover the very update that triggered tracking.
+		if !s.w.received[name][pts] {
+			simrt.Violate("C03", "C03.persist-ahead", "persist-ahead first-sight channel",
+				"first sight of %s: position %d is made durable, but no update of that channel received so far starts there (received starts: %v): the saved position covers the update that triggered tracking before it was handed to the handler", name, pts, keys(s.w.received[name]))
+		}
 	}
 	return s.op(fmt.Sprintf("SetChannelPts %s %d", name, pts), func() { s.chans[channelID] = pts }, func() {
 		if known {
@@ -193,6 +201,7 @@ type world struct {
 	crashed                     bool
 	mgrCancel                   context.CancelFunc
 	started                     map[*tdupdates.Manager]bool
+	received                    map[string]map[int]bool // sequence -> start positions of updates handed to Manager.Handle
 }
 
 func (w *world) faultsOn() bool { return !w.quiet && w.srv.faultsOn }
@@ -256,6 +265,15 @@ func (w *world) persisting(seq string, v int) {
 			return
 		}
 	}
+}
+
+func keys(m map[int]bool) []int {
+	var out []int
+	for k := range m {
+		out = append(out, k)
+	}
+	sort.Ints(out)
+	return out
 }
 
 func seqKind(seq string) string {
@@ -337,7 +355,7 @@ func run(t *testing.T, tape *simrt.Tape, env dst.Env) *simrt.Outcome {
 		return runBox(t, tape, env)
 	}
 	w := &world{tape: tape, prop: env.Prop, delivered: map[string][]delivery{}, covered: map[string]int{}, base: map[string]int{}, base0: map[string]int{},
-		exemptTo: map[string]int{}, pendingTL: map[string]int{}, started: map[*tdupdates.Manager]bool{}}
+		exemptTo: map[string]int{}, pendingTL: map[string]int{}, started: map[*tdupdates.Manager]bool{}, received: map[string]map[int]bool{}}
 	var finished bool
 	out := simrt.Run(t, tape, simrt.Options{Policy: -1, MaxSteps: 400_000}, func(s *simrt.Sim) {
 		w.sim = s
@@ -485,7 +503,7 @@ func (w *world) main(env dst.Env) {
 		})
 	}
 
-	push := func(u tg.UpdatesClass, what string) {
+	push := func(u tg.UpdatesClass, what string, es ...*entry) {
 		if lossDen > 0 && !w.quiet && tape.Coin(simrt.Net, 1, lossDen) {
 			simrt.FaultFired("push-lost", "%s", what)
 			return
@@ -509,6 +527,12 @@ func (w *world) main(env dst.Env) {
 				ctx, cancel := context.WithTimeout(context.Background(), time.Second)
 				defer cancel()
 				simrt.Ev("push", "%s", what)
+				for _, e := range es {
+					if w.received[e.seqName] == nil {
+						w.received[e.seqName] = map[int]bool{}
+					}
+					w.received[e.seqName][e.start] = true
+				}
 				_ = m.Handle(ctx, u)
 			})
 		}
@@ -532,21 +556,21 @@ func (w *world) main(env dst.Env) {
 			simrt.FaultFired("push-unknown-sender", "%s", what)
 			m := srv.message(es[0])
 			m.SetFromID(&tg.PeerUser{UserID: 78})
-			push(&tg.Updates{Updates: []tg.UpdateClass{&tg.UpdateNewMessage{Message: m, Pts: es[0].end, PtsCount: 1}}, Date: srv.date}, what+"(unknown sender)")
+			push(&tg.Updates{Updates: []tg.UpdateClass{&tg.UpdateNewMessage{Message: m, Pts: es[0].end, PtsCount: 1}}, Date: srv.date}, what+"(unknown sender)", es...)
 			return
 		}
 		switch {
 		case len(es) == 1 && kind == 0:
-			push(&tg.UpdateShort{Update: ups[0], Date: srv.date}, what+"(short)")
+			push(&tg.UpdateShort{Update: ups[0], Date: srv.date}, what+"(short)", es...)
 		case kind <= 2:
 			srv.seq++
-			push(&tg.Updates{Updates: ups, Users: users, Chats: srv.chats(chatIDs...), Date: srv.date, Seq: srv.seq}, fmt.Sprintf("%s(seq %d)", what, srv.seq))
+			push(&tg.Updates{Updates: ups, Users: users, Chats: srv.chats(chatIDs...), Date: srv.date, Seq: srv.seq}, fmt.Sprintf("%s(seq %d)", what, srv.seq), es...)
 		case kind == 3:
 			start := srv.seq + 1
 			srv.seq += 1 + tape.Choose(simrt.Wl, 2)
-			push(&tg.UpdatesCombined{Updates: ups, Users: users, Chats: srv.chats(chatIDs...), Date: srv.date, SeqStart: start, Seq: srv.seq}, fmt.Sprintf("%s(seq %d..%d)", what, start, srv.seq))
+			push(&tg.UpdatesCombined{Updates: ups, Users: users, Chats: srv.chats(chatIDs...), Date: srv.date, SeqStart: start, Seq: srv.seq}, fmt.Sprintf("%s(seq %d..%d)", what, start, srv.seq), es...)
 		default:
-			push(&tg.Updates{Updates: ups, Users: users, Chats: srv.chats(chatIDs...), Date: srv.date}, what+"(seq 0)")
+			push(&tg.Updates{Updates: ups, Users: users, Chats: srv.chats(chatIDs...), Date: srv.date}, what+"(seq 0)", es...)
 		}
 	}
 
@@ -588,6 +612,26 @@ func (w *world) main(env dst.Env) {
 						ctx, cancel := context.WithTimeout(context.Background(), time.Second)
 						defer cancel()
 						_ = m.HandleAffected(ctx, 0, e.end, e.count())
+					})
+				}
+				if srv.faultsOn && tape.Coin(simrt.Wl, 1, 2) {
+					// an affected-pts report for a channel the client does not
+					// track (e.g. the answer of an API call about a channel it
+					// never got updates for); its pts values are unrelated to the
+					// common sequence but may collide with it numerically
+					k := 1 + tape.Choose(simrt.Wl, 2)
+					pts := srv.p + k
+					if tape.Coin(simrt.Wl, 1, 3) {
+						pts = 1 + tape.Choose(simrt.Wl, 30)
+					}
+					simrt.FaultFired("affected-untracked-channel", "channel 4242 pts=%d count=%d", pts, k)
+					simrt.Go("affected-decoy", func() {
+						if !simrt.WaitUntil(50*time.Millisecond, 20*time.Second, func() bool { return w.started[m] }) {
+							return
+						}
+						ctx, cancel := context.WithTimeout(context.Background(), time.Second)
+						defer cancel()
+						_ = m.HandleAffected(ctx, 4242, pts, k)
 					})
 				}
 			case c == 6:
